@@ -14,6 +14,7 @@
 #include <iostream>
 #include <random>
 #include <thread>
+#include <chrono>
 #include <cfenv>
 #include <atomic>
 #include <link.h>
@@ -323,12 +324,18 @@ static void op_nomain(const V &a, V &r) {
     const ll *v = a.data() + SPECN; std::vector<Work> ws; int n = 0;
     std::thread setup([&]() { need_keys(a); n = cur.params->in_out_params->n; make_work(ws, 8, n, (unsigned) v[0]); for (auto &wk : ws) eval_work(wk, wk.ref, n); });
     setup.join();
+    // idle threads that start after the set-up thread is gone and never touch the FFT: they inherit its stack and thread-local block (zero-filled by
+    // the thread library), which stays that way while the others evaluate - a stale pointer into the set-up thread's per-thread state reads zeros
+    std::atomic<bool> release(false); std::vector<std::thread> idle;
+    for (int q = 0; q < 3; q++) idle.emplace_back([&]() { while (!release) std::this_thread::sleep_for(std::chrono::milliseconds(2)); });
     std::atomic<long> mism(0), evals(0);
+    { std::vector<int32_t> o; eval_work(ws[0], o, n); evals++; if (o != ws[0].ref) mism++; }       // and the main thread, whose first FFT use this is
     for (int wave = 0; wave < 3; wave++) {
         std::vector<std::thread> th;
         for (int t = 0; t < 4; t++) th.emplace_back([&, t]() { for (int i = 0; i < 8; i++) { std::vector<int32_t> o; eval_work(ws[(i + t) % 8], o, n); evals++; if (o != ws[(i + t) % 8].ref) mism++; } });
         for (auto &t : th) t.join();
     }
+    release = true; for (auto &t : idle) t.join();
     r.push_back(mism); r.push_back(evals);
 }
 // handover <spec> nthreads iters seed : objects of the FFT domain are created by one thread and transformed by another - each object is used
